@@ -73,7 +73,8 @@ def gen_case(rng, n_steps, trace):
         l = open_term(2, vs) if vs else app(rng.choice(consts))
         lv = vars_of(l)
         r = open_term(2, lv) if lv else app(rng.choice(consts))
-        rules.append({'sort': S, 'l': l, 'r': r})
+        # some rules are stated over a sort VARIABLE (axiom{R} \\rewrites{R}(...)): the sort parameter is met before the element variables
+        rules.append({'sort': '$R' if rng.random() < 0.3 else S, 'l': l, 'r': r})
     # an execution: start from a ground instance of some rule's lhs; each step instantiates a rule so that its lhs is the current term
     steps = []
     r0 = rng.randrange(len(rules))
@@ -97,6 +98,10 @@ def gen_case(rng, n_steps, trace):
             ri, m = rng.choice(cands)
             steps.append({'rule': ri, 'subst': m})
             cur = sub(rules[ri]['r'], m)
+    for st in steps:        # a trace may list the substitution of a step in any order
+        items = list(st['subst'].items())
+        rng.shuffle(items)
+        st['subst'] = dict(items)
     reported = [None] * len(steps)
     if steps and rng.random() < 0.4:          # the trace reports stale / unrelated post-configurations
         for k in range(len(steps)):
